@@ -345,9 +345,10 @@ func c16CKKSRun(c *Ctx, set c16CKKSSet, n, lin, lout int, sigma float64, logBoun
 	}
 
 	// Refresh / masked linear transformation
-	// the internal encoder only handles []*bignum.Complex when its precision exceeds 53 bits
+	// precision of the protocol's big floats: the log-bound itself (as the library tests do) or 64 bits;
+	// the internal encoder is built with max(prec, 54) (fixes/C16-4: it only handles []*bignum.Complex above 53 bits)
 	prec := logBound
-	if prec < 64 {
+	if c.rng.Intn(2) == 0 && prec < 64 {
 		prec = 64
 	}
 	if fn != nil && fn.decode && logBound <= 53 && n == 1 {
@@ -546,7 +547,11 @@ func c16CKKSTransform(set c16CKKSSet, fn *c16CKKSFunc, prec uint, md *rlwe.MetaD
 	}
 	slots := md.Slots()
 	if fn != nil {
-		enc := ckks.NewEncoder(set.cp, prec)
+		encPrec := prec
+		if encPrec < 54 {
+			encPrec = 54
+		}
+		enc := ckks.NewEncoder(set.cp, encPrec)
 		bc := make([]*bignum.Complex, slots)
 		for i := range bc {
 			bc[i] = bignum.NewComplex()
